@@ -221,7 +221,9 @@ func (cg *caseGen) vexpr(vc *vctx, depth int) *pvcase.VExpr {
 }
 
 func (cg *caseGen) bexpr(nargs int, depth int) *pvcase.BExpr {
-	ws := []wk{{"t", 30}, {"f", 8}, {"even", 12}}
+	// posge / tlen: the predicate looks at c.pos / c.text — for a predicate block that is the pos / text of the most
+	// recently executed action (finding D2), so anything that changes WHICH actions run (a memo hit) shows here
+	ws := []wk{{"t", 30}, {"f", 8}, {"even", 12}, {"posge", 9}, {"tlen", 5}}
 	if nargs > 0 {
 		ws = append(ws, wk{"argnil", 8}, wk{"argeq", 12})
 	} else {
@@ -250,6 +252,10 @@ func (cg *caseGen) bexpr(nargs int, depth int) *pvcase.BExpr {
 				b.H = append(b.H, []byte(string(cg.pick(cg.alpha)))...)
 			}
 		}
+	case "posge":
+		b.N = int64(cg.r.IntN(5))
+	case "tlen":
+		b.N = int64(cg.r.IntN(3))
 	case "sge":
 		b.Key = pickStr(cg.r, stateKeys)
 		b.N = int64(cg.r.IntN(4))
